@@ -92,13 +92,14 @@ class MockTransport:
 class SessionWorld:
     """one ApplicationSession (subclass) joined through a MockTransport"""
 
-    def __init__(self, session_cls=None, serializer="json", hooks=None, config_extra=None):
+    def __init__(self, session_cls=None, serializer="json", hooks=None, config_extra=None, driver=None):
         from autobahn.wamp import message, role, types
         if _drv.FW == "twisted":
             from autobahn.twisted.wamp import ApplicationSession
         else:
             from autobahn.asyncio.wamp import ApplicationSession
-        self.d = _drv.get_driver()
+        self.d = driver or _drv.get_driver()
+        self.owns_driver = driver is None
         self.message = message
         self.events = []
         hooks = hooks or {}
@@ -207,4 +208,5 @@ class SessionWorld:
         return t
 
     def close(self):
-        self.d.close()
+        if self.owns_driver:
+            self.d.close()
